@@ -108,6 +108,13 @@ def _roundtrip(ro, mt):
         except BaseException as e:     # noqa
             out['rt_exc'] = _mro_names(e)[:2] + [str(e)[:200]]
         try:
+            live = [(st.id, [it.id for it in (st.items or [])]) for st in ro.stories]
+            out['live_ids'] = live
+            if 'rt_cls' in out:
+                out['rt_ids'] = [(st.id, [it.id for it in (st.items or [])]) for st in rr.stories]
+        except BaseException as e:     # noqa
+            out['ids_exc'] = _mro_names(e)[:2]
+        try:
             out['completed'] = bool(ro.completed)
         except BaseException as e:     # noqa
             out['completed_exc'] = _mro_names(e)[:2]
@@ -176,6 +183,45 @@ def _make_add(orig, mt):
         return res
     __add__.__wrapped__ = orig
     return __add__
+
+
+def direct_merge(ro, msg):
+    """msg.merge(ro) - the documented public method - called directly instead of
+    through `+`, recorded exactly like an ADD event (flag direct=True)."""
+    import mosromgr.mostypes as mt
+    ev = {'ev': 'ADD', 'seq': EV.next_seq(), 'ro_obj': id(ro), 'msg_obj': id(msg),
+          'msg_cls': type(msg).__name__, 'direct': True, 'coll': None}
+    ev['pre_xml'] = _ser(ro.xml)
+    ev['msg_xml'] = _ser(msg.xml)
+    wl = []
+    EV.WARN_STACK.append(wl)
+    EV.STATE['depth'] += 1
+    EV.STATE['prims'] = prims = []
+    try:
+        try:
+            res = msg.merge(ro)
+            ev['outcome'] = 'ret'
+            err = None
+        except Exception as e:
+            res = ro
+            err = e
+            ev['outcome'] = 'raise'
+            ev['exc_mro'] = _mro_names(e)
+            ev['exc_msg'] = str(e)[:300]
+    finally:
+        EV.STATE['depth'] -= 1
+        EV.WARN_STACK.pop()
+        EV.STATE['prims'] = None
+    target = res if hasattr(res, 'xml') else ro
+    ev['post_xml'] = _ser(target.xml)
+    ev['msg_after'] = _ser(msg.xml)
+    ev['warns'] = wl
+    ev['prims'] = prims[:60]
+    ev['alias'] = _alias_scan(msg.xml, target.xml) if err is None else None
+    ev['rt'] = _roundtrip(target, mt)
+    EV.LOG.append(ev)
+    EV.COUNTS['direct_merge'] += 1
+    return target, err
 
 
 def _wrap_classmethod(cls, name, source_kind):
